@@ -112,6 +112,13 @@ def plan(tier, seed):
             items.append(dict(group="explicit", n=n, basis=b, dict="custom-arg"))
             items.append(dict(group="explicit", n=n, basis=b, dict="custom-own"))
             items.append(dict(group="model", n=n, basis=b, dict="custom-own"))
+    for n in (1, 2, 3):
+        for b in strings("XYZ", n):
+            if set(b) != {"Z"}:
+                items.append(dict(group="explicit", n=n, basis=b, dict="override-arg"))
+                items.append(dict(group="model", n=n, basis=b, dict="override-arg"))
+    for n in (1, 2, 3, 4):
+        items.append(dict(group="large-batch", n=n))
     items.append(dict(group="dictionary"))
     for first in range(len(HIST_OPS)):
         items.append(dict(group="dict-history", first=first, depth=4 if tier == "quick" else 5))
@@ -137,12 +144,20 @@ def check_case(acc, case):
     U_ = L.unitaries
     if case["group"] == "dictionary":
         return check_dictionary(acc, case)
+    if case["group"] == "large-batch":
+        return check_large_batch(acc, case)
     n, basis, dmode = case["n"], case["basis"], case["dict"]
     D = 2 ** n
     space = tbits(n)
     U = R.basis_unitary(basis, ALLU)
     qual = "nonreal-basis" if (set(basis) & NONREAL) else "real-basis"
     kw = dict(unitaries=custom_dict_t()) if dmode == "custom-arg" else {}
+    if dmode == "override-arg":
+        # the dictionary passed as an argument redefines default letters: it wins over the state's own
+        ov = dict(R.DEFAULT_U, X=R.CUSTOM_U["G"], Y=R.CUSTOM_U["S"])
+        kw = dict(unitaries=L.unitaries.create_dict(X=c2t(ov["X"]), Y=c2t(ov["Y"])))
+        U = R.basis_unitary(basis, ov)
+        qual = "nonreal-basis" if set(basis) & set("XY") else "real-basis"
     acc.ev(1, nontrivial=set(basis) != {"Z"})
 
     def bad(func, src, obs, exp, sub):
@@ -264,6 +279,46 @@ def check_case(acc, case):
     acc.outcome(sha([case["group"], np.round(U, 6)]))
 
 
+def check_large_batch(acc, case):
+    """batches much longer than the space (rows repeat): chunked evaluation paths must return one
+    value per row, in row order"""
+    L = lib()
+    U_ = L.unitaries
+    n = case["n"]
+    D = 2 ** n
+    space = tbits(n)
+    params_c = next(iter(param_assignments("complex", [n, 2], npat=1, dev=0, q0=1)))[1]
+    params_m = next(iter(param_assignments("mixed", [n, 1, 1], npat=1, dev=0, q0=1)))[1]
+    cst = build_state("complex", [n, 2], params_c)
+    mst = build_state("mixed", [n, 1, 1], params_m)
+    psi = L.cplx.numpy(call(cst.psi, space))
+    rho = L.cplx.numpy(call(mst.rho, space, space))
+    plans = [(("XY" * n)[:n], 300), (("YX" * n)[:n], 1000)]
+    if n <= 2:
+        plans.append((("XY" * n)[:n], 5000))
+    plans.append(("Y" + "Z" * (n - 1), 70000))
+    for basis, B in plans:
+        acc.ev(1)
+        rows = [(7 * i * i + 3 * i) % D for i in range(B)]
+        U = R.basis_unitary(basis)
+        st_rows = space[rows]
+        try:
+            o1 = L.cplx.numpy(call(U_.rotate_psi_inner_prod, cst, basis, st_rows))
+            o2 = call(U_.rotate_rho_probs, mst, basis, st_rows).numpy()
+            o3 = L.cplx.numpy(call(U_.rotate_psi_inner_prod, cst, basis, st_rows, psi=c2t(psi)))
+            o4 = call(U_.rotate_rho_probs, mst, basis, st_rows, rho=c2t(rho)).numpy()
+        except LibRaised as e:
+            acc.viol(f"rotate:raised:{e.kind}:large-batch", dict(case, basis=basis, rows=B), observed=e.tb)
+            continue
+        e1 = (U @ psi)[rows]
+        e2 = np.real(np.diag(U @ rho @ U.conj().T))[rows]
+        for nm, o, e in (("rotate_psi_inner_prod:model", o1, e1), ("rotate_rho_probs:model", o2, e2), ("rotate_psi_inner_prod:explicit", o3, e1), ("rotate_rho_probs:explicit", o4, e2)):
+            acc.count("comparisons")
+            if not close(o, e, TOL):
+                acc.viol(nm + ":large-batch", dict(case, basis=basis, rows=B), observed=list(np.shape(o)), expected=list(np.shape(e)), detail=dict(rows=B))
+    acc.outcome(sha(["large", n]))
+
+
 def check_dictionary(acc, case):
     L = lib()
     acc.ev(1)
@@ -289,6 +344,16 @@ def check_dictionary(acc, case):
     for k, v in ALLU.items():
         if k not in d2 or not close(L.cplx.numpy(d2[k]), v, 1e-15):
             acc.viol("dictionary:user-added-unitary", dict(case), observed=d2.get(k), expected=v, detail=dict(letter=k))
+    # overriding default letters in one call, or editing a returned dictionary, must not change what a later
+    # plain create_dict() returns
+    call(L.unitaries.create_dict, X=c2t(R.CUSTOM_U["G"]), Z=c2t(R.CUSTOM_U["S"]))
+    dd = call(L.unitaries.create_dict)
+    dd["Y"] = c2t(R.CUSTOM_U["G"])
+    dd["X"].mul_(2.0)
+    d4 = call(L.unitaries.create_dict)
+    acc.ev(1)
+    if any(not close(L.cplx.numpy(d4[k]), R.DEFAULT_U[k], 1e-15) for k in "XYZ") or set(d4) != {"X", "Y", "Z"}:
+        acc.viol("dictionary:defaults-changed-by-an-earlier-call", dict(case), observed={k: d4[k] for k in d4}, expected=R.DEFAULT_U)
     # user matrices given as nested lists / numpy arrays (real-pair layout [re, im]) are converted
     for name, v in R.CUSTOM_U.items():
         pair = np.stack([v.real, v.imag])
